@@ -5,6 +5,9 @@ package dxil
 import (
 	"github.com/gogpu/naga/dxil/internal/bitcode"
 	"github.com/gogpu/naga/dxil/internal/container"
+	"github.com/gogpu/naga/dxil/internal/passes/dce"
+	"github.com/gogpu/naga/dxil/internal/passes/mem2reg"
+	"github.com/gogpu/naga/dxil/internal/passes/sroa"
 	"github.com/gogpu/naga/ir"
 )
 
@@ -19,6 +22,40 @@ func VerifPrepare(m *ir.Module, stage int) (*ir.Module, error) {
 	if stage >= 1 {
 		if err := runOptPasses(out); err != nil {
 			return nil, err
+		}
+	}
+	return out, nil
+}
+
+// VerifPreparePasses runs prepareModule followed by the selected optimisation passes
+// (in the pipeline's order: sroa, mem2reg, dce), so that each pass can be judged alone.
+func VerifPreparePasses(m *ir.Module, doSroa, doMem2reg, doDce bool) (*ir.Module, error) {
+	out, err := prepareModule(m)
+	if err != nil {
+		return nil, err
+	}
+	fns := make([]*ir.Function, 0, len(out.EntryPoints)+len(out.Functions))
+	for i := range out.EntryPoints {
+		fns = append(fns, &out.EntryPoints[i].Function)
+	}
+	for i := range out.Functions {
+		fns = append(fns, &out.Functions[i])
+	}
+	if doSroa {
+		for _, f := range fns {
+			sroa.Run(out, f)
+		}
+	}
+	if doMem2reg {
+		for _, f := range fns {
+			if err := mem2reg.Run(out, f); err != nil {
+				return nil, err
+			}
+		}
+	}
+	if doDce {
+		for _, f := range fns {
+			dce.Run(out, f)
 		}
 	}
 	return out, nil
